@@ -532,7 +532,8 @@ def configured(vc):
     plat = object.__new__(pc.SpacecraftConfig)
     plat.__dict__.update(visual_cross_section=12.0, mass=345.0, reflectivity=0.3)
     acfg = _NS(platform=plat, state=None)
-    clock = _NS(julian_date_start="JD-START", datetime_start="DT-START")
+    # (a clock that has already ticked: an agent added mid-run is built with the clock at a later epoch; the reference epoch of its force model is still the START of the scenario)
+    clock = _NS(julian_date_start="JD-START", datetime_start="DT-START", julian_date_epoch="JD-NOW", datetime_epoch="DT-NOW", time=7200.0)
     fac = vc.fn(DYN + "dynamicsFactory")
     out1 = fac(acfg, _NS(propagation_model="Special_Perturbations", integration_method="RK45"), "GEO", "PERT", clock)
     out2 = fac(acfg, _NS(propagation_model="two_body", integration_method="DOP853"), "GEO", "PERT", clock)
